@@ -2,7 +2,8 @@
 import json
 import vcheck
 
-GROUPS = ["ctor", "len", "ovl", "ft", "fa", "bc", "prep", "ex", "lag"]
+GROUPS = ["ctor", "len", "ovl", "ft", "fa", "bc", "prep", "ex", "lag", "glue"]
+GLUE_WIDTHS = ((3, 2), (2, 5))
 LAG_FIELDS = ("f64", "f62", "f128")
 
 
@@ -12,6 +13,44 @@ def lag_lengths(fld, L):
     if fld == "f64":
         v += [e for e in (14, 16) if e > L]
     return v
+
+
+def glue_coverage(ctx, profile, lines, diffs):
+    """BoundaryConstraints::new on two-segment traces: every (segment, column class, outcome) cell must have been sampled and
+    the implementation's outcome must be the one the DEFINITION dictates (accepted iff the column is below the segment's OWN
+    width) -- computed here from the integers, not taken from the harness or the model."""
+    def classes(seg, mw, aw):
+        if seg == "m":
+            return {"0": 0, "mw-1": mw - 1, "mw": mw, "mw+aw-1": mw + aw - 1, "mw+aw": mw + aw}
+        return {"0": 0, "aw-1": aw - 1, "aw": aw, "mw-1": mw - 1, "mw": mw, "mw+aw-1": mw + aw - 1, "mw+aw": mw + aw}
+    want, seen, wrong = set(), set(), []
+    for mw, aw in GLUE_WIDTHS:
+        for mn, mc in classes("m", mw, aw).items():
+            for an, ac in classes("a", mw, aw).items():
+                for kind in "spq":
+                    want.add((mw, aw, kind, mn, an, mc < mw and ac < aw))
+    for l in lines:
+        if " => " not in l or not l.startswith("glue "):
+            continue
+        c, res = l.split(" => ", 1)
+        w = c.split()
+        if not w[6].startswith("cols:"):
+            continue
+        mw, aw = int(w[3], 16), int(w[4], 16)
+        _, kind, mn, an = w[6].split(":")
+        mn, an = mn[2:], an[2:]
+        accepted = res.strip().startswith("ok")
+        exp = classes("m", mw, aw)[mn] < mw and classes("a", mw, aw)[an] < aw
+        seen.add((mw, aw, kind, mn, an, accepted))
+        if accepted != exp:
+            wrong.append(f"{c[:70]} => {res.strip()[:20]} (definition: {'accepted' if exp else 'refused'})")
+    missing = sorted(want - seen)
+    ctx.ob(f"coverage:glue:every-segment-columnclass-outcome:{profile}", not missing,
+           f"{len(missing)} cells (main width, aux width, kind, main class, aux class, accepted) not observed, e.g. {missing[:3]}; "
+           f"{len(wrong)} outcomes against the definition, e.g. {wrong[:2]}")
+    bad = [d["case"][:70] for d in diffs]
+    ctx.ob(f"coverage:glue:compared-equal:{profile}", not bad, f"{len(bad)} disagreements, e.g. {bad[:3]}")
+    ctx.notes.setdefault("glue_coverage", {})[profile] = {"cells_expected": len(want), "cells_observed": len(want & seen)}
 
 
 def lag_coverage(ctx, profile, lines, diffs, L):
@@ -76,6 +115,10 @@ def run(ctx):
                 "(all rows, all k, n up to 2^" + str(lag_L) + " / 2^16) and = x^(2^(k-1)) - 1 at random points, union of domains = even rows, numerators = definition at "
                 "every row, zero on the enforcement domain for the honest column, a cell corrupted in row odd*2^(v-k) leaves constraints < k satisfied and "
                 "is detected by constraint k (n <= 1024), evaluate_and_combine = sum over ALL log2 n constraints (reference Horner + inverse), boundary constraint; "
+                "glue: the real BoundaryConstraints::new on two-segment traces (main/aux widths 3/2 and 2/5): every combination of column classes "
+                "{0, w-1, w, other width, mw+aw-1, mw+aw} of both segments x three assertion kinds, ill-sized assertions in either segment, duplicates / overlaps "
+                "within and across segments, random lists; outcome (ok + #constraints | width | length | overlap) against the model's boundary_prepare "
+                "(each list against its OWN segment's width) and, in the falsifier, against the definition; "
                 "distinct = distinct case lines")
     ctx.assumptions += [
         "the extension-field embedding E::from(B) and evaluation at extension-field points are not modelled (E = B); the trace-domain statements only involve base-field points",
@@ -107,10 +150,14 @@ def run(ctx):
                     ctx.ob(f"harness-run:{g}:{profile}", False, out[-300:])
                     if g == "lag":
                         lag_coverage(ctx, profile, [], [], lag_L)
+                    if g == "glue":
+                        glue_coverage(ctx, profile, [], [])
                     continue
                 diffs = ctx.correspondence(f"{g}:{profile}", lines, drv, compare=cmp, timeout=2400, shards=8 if g == "lag" else 1)
                 if g == "lag":
                     lag_coverage(ctx, profile, lines, diffs, lag_L)
+                if g == "glue":
+                    glue_coverage(ctx, profile, lines, diffs)
         if hb:
             rc, out, _ = vcheck.sh([hb, "falsify", str(ctx.seed), str(nmax), str(lag_L)], timeout=1500)
             nfail, seen_tail = 0, False
